@@ -19,6 +19,12 @@ func vh_sendparams() {
 	rcvNxt := seqnum.Value(vnU32("rcvNxt"))
 	wnd := seqnum.Size(vnU32("wnd"))
 	vassume(wnd < 1<<30)
+	if vparam("near", 0) == 1 {
+		// C14, "consequently" clause: the receive sequence space sits on the 2^31 or the 2^32
+		// boundary (within 4096 either side), small windows
+		vassume(uint32(rcvNxt)+0x1000 < 0x2000 || uint32(rcvNxt)-0x7ffff000 < 0x2000)
+		vassume(wnd < 1<<16)
+	}
 	scale := uint8(vhPick("scale", 15))
 	e.rcv = newReceiver(e, rcvNxt-1, wnd, scale)
 	e.rcvBufSize = int(vnU32("bufsize"))
